@@ -109,9 +109,6 @@ impl CubicRoot for IBig {
     #[inline]
     fn cbrt(&self) -> IBig {
         let (sign, mag) = self.as_sign_repr();
-        if sign == Sign::Negative {
-            panic_root_negative()
-        }
         IBig(mag.nth_root(3).with_sign(sign))
     }
 }
